@@ -296,6 +296,40 @@ theorem litExp_in (coeff : Nat) (hasExp : Bool) (e : Int) (n : Nat) (E : Int)
     simp [b1, b2, a1, a2, a3, a4, a5]
     omega
 
+/-- converse of `litExp_in`: outside the window `setString` fails -/
+theorem litExp_out (coeff : Nat) (hasExp : Bool) (e : Int) (n : Nat) (E : Int)
+    (hE : E = if hasExp then e else 0)
+    (h : ¬ ((-100000 : Int) ≤ E ∧ E ≤ 100000 ∧ (n : Int) ≤ 100000 ∧
+      (-100000 : Int) ≤ E - (n : Int) + (Dec.numDigits coeff : Int) - 1 ∧
+      E - (n : Int) + (Dec.numDigits coeff : Int) - 1 ≤ 100000)) :
+    litExp coeff hasExp e n = none := by
+  unfold litExp maxExp
+  cases hasExp
+  · simp only [Bool.false_eq_true, if_false] at hE
+    subst hE
+    simp only [Bool.false_and, Bool.false_eq_true, if_false]
+    split
+    · rfl
+    · split
+      · rfl
+      · rename_i h2 h3
+        exfalso
+        simp only [Bool.or_eq_true, decide_eq_true_eq, not_or, Int.not_lt] at h2 h3
+        omega
+  · simp only [if_true] at hE
+    subst hE
+    simp only [Bool.true_and, if_true]
+    split
+    · rfl
+    · split
+      · rfl
+      · split
+        · rfl
+        · rename_i h1 h2 h3
+          exfalso
+          simp only [Bool.or_eq_true, decide_eq_true_eq, not_or, Int.not_lt] at h1 h2 h3
+          omega
+
 theorem ok_append {b : Nat} {xs ys : List Nat} (hx : ∀ c ∈ xs, OkByte b c) (hy : ∀ c ∈ ys, OkByte b c) :
     ∀ c ∈ xs ++ ys, OkByte b c := by
   intro c hc
@@ -330,6 +364,23 @@ theorem decValue_plain (k : NumLit.Kind) (p : Parts) (ip fp : List Nat)
     simp only [hc, hl, hle, hm]
   · show toRat ⟨_, _⟩ = _
     rw [digitsVal_append, toRat_mant]; rfl
+
+/-- outside the window the base-10 reader fails, with or without a multiplier -/
+theorem decValue_out (k : NumLit.Kind) (p : Parts) (ip fp : List Nat)
+    (hip : ∀ c ∈ ip, OkByte 10 c) (hfp : ∀ c ∈ fp, OkByte 10 c)
+    (h1 : p.intDs = ip.filter (· != 95)) (h2 : p.fracDs = fp.filter (· != 95))
+    (hw : ¬ ((-100000 : Int) ≤ partsExp p ∧ partsExp p ≤ 100000 ∧ (nDigits fp : Int) ≤ 100000 ∧
+      (-100000 : Int) ≤ partsExp p - (nDigits fp : Int) + (Dec.numDigits (digitsVal 10 (ip ++ fp)) : Int) - 1 ∧
+      partsExp p - (nDigits fp : Int) + (Dec.numDigits (digitsVal 10 (ip ++ fp)) : Int) - 1 ≤ 100000)) :
+    decValue k p = .err := by
+  have hc : horner 10 (p.intDs ++ p.fracDs) = digitsVal 10 (ip ++ fp) := by
+    rw [h1, h2]; exact horner_cat ip fp hip hfp
+  have hl : p.fracDs.length = nDigits fp := by rw [h2]; rfl
+  have hle := litExp_out (digitsVal 10 (ip ++ fp)) p.hasExp
+    (if p.expNeg then -(horner 10 p.expDs : Int) else (horner 10 p.expDs : Int)) (nDigits fp) (partsExp p)
+    rfl hw
+  unfold decValue
+  simp only [hc, hl, hle]
 
 theorem decValue_si (k : NumLit.Kind) (p : Parts) (ip fp : List Nat)
     (hip : ∀ c ∈ ip, OkByte 10 c) (hfp : ∀ c ∈ fp, OkByte 10 c)
@@ -527,43 +578,68 @@ theorem headSafe_exp (x : Exponent) : HeadSafe x.spell := by
 theorem wf_ne_nil {b : Nat} {ds : List Nat} (h : wfDigits b ds = true) : ds ≠ [] := by
   intro e; subst e; simp [wfDigits] at h
 
-theorem litExp_zero (coeff : Nat) (e : Int) : litExp coeff false e 0 = some 0 := by
-  unfold litExp maxExp
-  simp
+theorem litExp_zero (coeff : Nat) (e : Int) (h : (Dec.numDigits coeff : Int) - 1 ≤ maxExp) :
+    litExp coeff false e 0 = some 0 := by
+  have := litExp_in coeff false e 0 0 rfl (by omega) (by omega) (by omega) (by omega)
+    (by unfold maxExp at h; omega)
+  simpa using this
 
-theorem decValue_int (k : NumLit.Kind) (ds : List Nat) (h : ∀ c ∈ ds, OkByte 10 c) :
+theorem decValue_int (k : NumLit.Kind) (ds : List Nat) (h : ∀ c ∈ ds, OkByte 10 c)
+    (hw : (Dec.numDigits (digitsVal 10 ds) : Int) - 1 ≤ maxExp) :
     decValue k { intDs := ds.filter (· != 95), fracDs := [] } = .ok ⟨k, ⟨(digitsVal 10 ds : Nat), 0⟩⟩ := by
   unfold decValue
-  simp only [List.append_nil, List.length_nil, litExp_zero, horner_ok 10 (by decide) ds h]
+  simp only [List.append_nil, List.length_nil, horner_ok 10 (by decide) ds h, litExp_zero _ _ hw]
 
-theorem lit_dec (ds : List Nat) (hwf : (Lit.dec ds).wf = true) :
+theorem nil_ok (b : Nat) : ∀ c ∈ ([] : List Nat), OkByte b c := by intro c hc; cases hc
+
+theorem dec_ok (ds : List Nat) (hwf : (Lit.dec ds).wf = true) :
+    (∀ c ∈ ds, OkByte 10 c) ∧ NoPrefix ds ∧ ds ≠ [] := by
+  simp only [Lit.wf, Bool.or_eq_true, beq_iff_eq] at hwf
+  rcases hwf with h | h
+  · subst h
+    refine ⟨?_, ?_, by simp⟩
+    · intro c hc; simp at hc; subst hc; right; decide
+    · intro c t h; simp at h
+  · cases ds with
+    | nil => simp at h
+    | cons a as =>
+      simp only [Bool.and_eq_true, decide_eq_true_eq] at h
+      refine ⟨?_, ?_, by simp⟩
+      · intro c hc
+        rcases List.mem_cons.1 hc with rfl | hc
+        · right; apply (digitOf_lt10_iff _).2; simp [NumLit.isDec]; omega
+        · exact wfTail_ok 10 as false h.2 c hc
+      · intro c t e; simp at e; omega
+
+/-- a `decimal_lit` is read by the base-10 reader from its digits -/
+theorem parts_dec (k : NumLit.Kind) (ds : List Nat) (hwf : (Lit.dec ds).wf = true) :
+    readValue k ds = decValue k { intDs := ds.filter (· != 95), fracDs := [] } := by
+  obtain ⟨hok, hnp, -⟩ := dec_ok ds hwf
+  rw [readValue_dec _ _ hnp]
+  have := readParts_int ds [] hok trivial (by intro t h; cases h)
+  rw [List.append_nil] at this
+  rw [this, tailParts_nil]
+
+theorem lit_dec (ds : List Nat) (hwf : (Lit.dec ds).wf = true) (hw : (Lit.dec ds).inWindow) :
     ∃ n, readValue (Lit.dec ds).kind (Lit.dec ds).spell = .ok n ∧ n.k = (Lit.dec ds).kind ∧
       toRat n.d = (Lit.dec ds).denote := by
-  have hok : (∀ c ∈ ds, OkByte 10 c) ∧ NoPrefix ds := by
-    simp only [Lit.wf, Bool.or_eq_true, beq_iff_eq] at hwf
-    rcases hwf with h | h
-    · subst h
-      refine ⟨?_, ?_⟩
-      · intro c hc; simp at hc; subst hc; right; decide
-      · intro c t h; simp at h
-    · cases ds with
-      | nil => simp at h
-      | cons a as =>
-        simp only [Bool.and_eq_true, decide_eq_true_eq] at h
-        refine ⟨?_, ?_⟩
-        · intro c hc
-          rcases List.mem_cons.1 hc with rfl | hc
-          · right; apply (digitOf_lt10_iff _).2; simp [NumLit.isDec]; omega
-          · exact wfTail_ok 10 as false h.2 c hc
-        · intro c t e; simp at e; omega
+  obtain ⟨hok, -, -⟩ := dec_ok ds hwf
+  obtain ⟨_, _, _, _, w5⟩ := hw
+  have w5' : (0 : Int) - ((0 : Nat) : Int) + (Dec.numDigits (digitsVal 10 ds) : Int) - 1 ≤ 100000 := w5
   refine ⟨⟨.int, ⟨(digitsVal 10 ds : Nat), 0⟩⟩, ?_, rfl, ?_⟩
   · show readValue .int ds = _
-    rw [readValue_dec _ _ hok.2]
-    have := readParts_int ds [] hok.1 trivial (by intro t h; cases h)
-    rw [List.append_nil] at this
-    rw [this, tailParts_nil, decValue_int _ _ hok.1]
+    rw [parts_dec _ ds hwf, decValue_int _ _ hok (by unfold maxExp; omega)]
   · show toRat ⟨_, 0⟩ = ((digitsVal 10 ds : Nat) : Rat)
     rw [toRat_int, Rat.intCast_natCast]
+
+theorem lit_dec_out (ds : List Nat) (hwf : (Lit.dec ds).wf = true) (hw : ¬ (Lit.dec ds).inWindow) :
+    readValue (Lit.dec ds).kind (Lit.dec ds).spell = .err := by
+  obtain ⟨hok, -, -⟩ := dec_ok ds hwf
+  show readValue .int ds = _
+  rw [parts_dec _ ds hwf]
+  refine decValue_out .int _ ds [] hok (nil_ok 10) rfl rfl ?_
+  rw [List.append_nil]
+  exact hw
 
 theorem lit_bin (ds : List Nat) (hwf : (Lit.bin ds).wf = true) :
     ∃ n, readValue (Lit.bin ds).kind (Lit.bin ds).spell = .ok n ∧ n.k = (Lit.bin ds).kind ∧
@@ -605,8 +681,6 @@ theorem optWf_ok (fp : Option (List Nat)) (h : optWf fp = true) : ∀ c ∈ optS
   | none => intro c hc; cases hc
   | some f => exact wfDigits_ok 10 f h
 
-theorem nil_ok (b : Nat) : ∀ c ∈ ([] : List Nat), OkByte b c := by intro c hc; cases hc
-
 theorem float_core (k : NumLit.Kind) (ip fp : List Nat) (ex : Option Exponent)
     (hip : ∀ c ∈ ip, OkByte 10 c) (hfp : ∀ c ∈ fp, OkByte 10 c) (hex : exWf ex = true)
     (s : List Nat)
@@ -635,75 +709,175 @@ theorem float_core (k : NumLit.Kind) (ip fp : List Nat) (ex : Option Exponent)
     rw [hE] at this
     exact this
 
+/-- outside the window a float spelling is an error -/
+theorem float_out (k : NumLit.Kind) (ip fp : List Nat) (ex : Option Exponent)
+    (hip : ∀ c ∈ ip, OkByte 10 c) (hfp : ∀ c ∈ fp, OkByte 10 c) (hex : exWf ex = true)
+    (s : List Nat)
+    (hs : readValue k s = decValue k (tailParts (ip.filter (· != 95)) (fp.filter (· != 95)) (exSpell ex)))
+    (hw : ¬ ((-100000 : Int) ≤ exVal ex ∧ exVal ex ≤ 100000 ∧ (nDigits fp : Int) ≤ 100000 ∧
+      (-100000 : Int) ≤ exVal ex - (nDigits fp : Int) + (Dec.numDigits (digitsVal 10 (ip ++ fp)) : Int) - 1 ∧
+      exVal ex - (nDigits fp : Int) + (Dec.numDigits (digitsVal 10 (ip ++ fp)) : Int) - 1 ≤ 100000)) :
+    readValue k s = .err := by
+  rw [hs]
+  cases ex with
+  | none =>
+    rw [show exSpell none = [] from rfl, tailParts_nil]
+    exact decValue_out k _ ip fp hip hfp rfl rfl hw
+  | some x =>
+    have hx : wfDigits 10 x.ds = true := hex
+    rw [show exSpell (some x) = x.spell from rfl, tailParts_exp _ _ x hx]
+    have hE : partsExp
+        { intDs := ip.filter (· != 95), fracDs := fp.filter (· != 95), hasExp := true,
+          expNeg := Exponent.neg x, expDs := x.ds.filter (· != 95) } = exVal (some x) := by
+      show (if true = true then _ else _) = x.value
+      rw [if_pos rfl, partsExp_exp x hx]
+    exact decValue_out k
+      { intDs := ip.filter (· != 95), fracDs := fp.filter (· != 95), hasExp := true,
+        expNeg := Exponent.neg x, expDs := x.ds.filter (· != 95) } ip fp hip hfp rfl rfl
+      (by rw [hE]; exact hw)
+
 theorem stop_exSpell (ex : Option Exponent) : Stop (exSpell ex) := by
   cases ex with
   | none => trivial
   | some x => exact stop_exp x
 
-theorem lit_fPoint (ip : List Nat) (fp : Option (List Nat)) (ex : Option Exponent)
-    (hwf : (Lit.fPoint ip fp ex).wf = true) (hw : (Lit.fPoint ip fp ex).inWindow) :
-    ∃ n, readValue (Lit.fPoint ip fp ex).kind (Lit.fPoint ip fp ex).spell = .ok n ∧
-      n.k = (Lit.fPoint ip fp ex).kind ∧ toRat n.d = (Lit.fPoint ip fp ex).denote := by
+theorem parts_fPoint (ip : List Nat) (fp : Option (List Nat)) (ex : Option Exponent)
+    (hwf : (Lit.fPoint ip fp ex).wf = true) :
+    readValue .float (Lit.fPoint ip fp ex).spell = decValue .float
+      (tailParts (ip.filter (· != 95)) ((optSpell fp).filter (· != 95)) (exSpell ex)) := by
   simp only [Lit.wf, Bool.and_eq_true] at hwf
   have hip := wfDigits_ok 10 ip hwf.1.1
   have hfp := optWf_ok fp hwf.1.2
-  obtain ⟨w1, w2, w3, w4, w5⟩ := hw
-  refine float_core .float ip (optSpell fp) ex hip hfp hwf.2 _ ?_ w1 w2 w3 w4 w5
   have e : (Lit.fPoint ip fp ex).spell = ip ++ 46 :: (optSpell fp ++ exSpell ex) := by simp [Lit.spell]
   rw [e, readValue_dec _ _ (noPrefix_cat ip _ hip (wf_ne_nil hwf.1.1) (headSafe_dot _)),
     readParts_frac ip _ _ hip hfp (stop_exSpell ex)]
 
-theorem lit_fExp (ip : List Nat) (x : Exponent)
-    (hwf : (Lit.fExp ip x).wf = true) (hw : (Lit.fExp ip x).inWindow) :
-    ∃ n, readValue (Lit.fExp ip x).kind (Lit.fExp ip x).spell = .ok n ∧
-      n.k = (Lit.fExp ip x).kind ∧ toRat n.d = (Lit.fExp ip x).denote := by
+theorem parts_fExp (ip : List Nat) (x : Exponent) (hwf : (Lit.fExp ip x).wf = true) :
+    readValue .float (Lit.fExp ip x).spell = decValue .float
+      (tailParts (ip.filter (· != 95)) (([] : List Nat).filter (· != 95)) (exSpell (some x))) := by
   simp only [Lit.wf, Bool.and_eq_true] at hwf
   have hip := wfDigits_ok 10 ip hwf.1
-  obtain ⟨w1, w2, w3, w4, w5⟩ := hw
-  have hm : (Lit.fExp ip x).mantDigits = (ip ++ [], nDigits []) := by simp [Lit.mantDigits, nDigits]
-  rw [hm] at w3 w4 w5
-  refine float_core .float ip [] (some x) hip (nil_ok 10) hwf.2 _ ?_ w1 w2 w3 w4 w5
   show readValue _ (ip ++ x.spell) = _
   rw [readValue_dec _ _ (noPrefix_cat ip _ hip (wf_ne_nil hwf.1) (headSafe_exp x)),
     readParts_int ip _ hip (stop_exp x) (exp_not_dot x)]
   rfl
 
+theorem parts_fDot (fp : List Nat) (ex : Option Exponent) (hwf : (Lit.fDot fp ex).wf = true) :
+    readValue .float (Lit.fDot fp ex).spell = decValue .float
+      (tailParts (([] : List Nat).filter (· != 95)) (fp.filter (· != 95)) (exSpell ex)) := by
+  simp only [Lit.wf, Bool.and_eq_true] at hwf
+  have hfp := wfDigits_ok 10 fp hwf.1
+  have e : (Lit.fDot fp ex).spell = [] ++ 46 :: (fp ++ exSpell ex) := by simp [Lit.spell]
+  rw [e, readValue_dec _ _ (show NoPrefix ([] ++ 46 :: (fp ++ exSpell ex)) from noPrefix_dot _),
+    readParts_frac [] fp _ (nil_ok 10) hfp (stop_exSpell ex)]
+
+theorem lit_fPoint (ip : List Nat) (fp : Option (List Nat)) (ex : Option Exponent)
+    (hwf : (Lit.fPoint ip fp ex).wf = true) (hw : (Lit.fPoint ip fp ex).inWindow) :
+    ∃ n, readValue (Lit.fPoint ip fp ex).kind (Lit.fPoint ip fp ex).spell = .ok n ∧
+      n.k = (Lit.fPoint ip fp ex).kind ∧ toRat n.d = (Lit.fPoint ip fp ex).denote := by
+  have hp := parts_fPoint ip fp ex hwf
+  simp only [Lit.wf, Bool.and_eq_true] at hwf
+  have hip := wfDigits_ok 10 ip hwf.1.1
+  have hfp := optWf_ok fp hwf.1.2
+  obtain ⟨w1, w2, w3, w4, w5⟩ := hw
+  exact float_core .float ip (optSpell fp) ex hip hfp hwf.2 _ hp w1 w2 w3 w4 w5
+
+theorem lit_fPoint_out (ip : List Nat) (fp : Option (List Nat)) (ex : Option Exponent)
+    (hwf : (Lit.fPoint ip fp ex).wf = true) (hw : ¬ (Lit.fPoint ip fp ex).inWindow) :
+    readValue (Lit.fPoint ip fp ex).kind (Lit.fPoint ip fp ex).spell = .err := by
+  have hp := parts_fPoint ip fp ex hwf
+  simp only [Lit.wf, Bool.and_eq_true] at hwf
+  have hip := wfDigits_ok 10 ip hwf.1.1
+  have hfp := optWf_ok fp hwf.1.2
+  exact float_out .float ip (optSpell fp) ex hip hfp hwf.2 _ hp hw
+
+theorem lit_fExp (ip : List Nat) (x : Exponent)
+    (hwf : (Lit.fExp ip x).wf = true) (hw : (Lit.fExp ip x).inWindow) :
+    ∃ n, readValue (Lit.fExp ip x).kind (Lit.fExp ip x).spell = .ok n ∧
+      n.k = (Lit.fExp ip x).kind ∧ toRat n.d = (Lit.fExp ip x).denote := by
+  have hp := parts_fExp ip x hwf
+  simp only [Lit.wf, Bool.and_eq_true] at hwf
+  have hip := wfDigits_ok 10 ip hwf.1
+  obtain ⟨w1, w2, w3, w4, w5⟩ := hw
+  have hm : (Lit.fExp ip x).mantDigits = (ip ++ [], nDigits []) := by simp [Lit.mantDigits, nDigits]
+  rw [hm] at w3 w4 w5
+  exact float_core .float ip [] (some x) hip (nil_ok 10) hwf.2 _ hp w1 w2 w3 w4 w5
+
+theorem lit_fExp_out (ip : List Nat) (x : Exponent)
+    (hwf : (Lit.fExp ip x).wf = true) (hw : ¬ (Lit.fExp ip x).inWindow) :
+    readValue (Lit.fExp ip x).kind (Lit.fExp ip x).spell = .err := by
+  have hp := parts_fExp ip x hwf
+  simp only [Lit.wf, Bool.and_eq_true] at hwf
+  have hip := wfDigits_ok 10 ip hwf.1
+  refine float_out .float ip [] (some x) hip (nil_ok 10) hwf.2 _ hp ?_
+  rw [List.append_nil]
+  exact hw
+
 theorem lit_fDot (fp : List Nat) (ex : Option Exponent)
     (hwf : (Lit.fDot fp ex).wf = true) (hw : (Lit.fDot fp ex).inWindow) :
     ∃ n, readValue (Lit.fDot fp ex).kind (Lit.fDot fp ex).spell = .ok n ∧
       n.k = (Lit.fDot fp ex).kind ∧ toRat n.d = (Lit.fDot fp ex).denote := by
+  have hp := parts_fDot fp ex hwf
   simp only [Lit.wf, Bool.and_eq_true] at hwf
   have hfp := wfDigits_ok 10 fp hwf.1
   obtain ⟨w1, w2, w3, w4, w5⟩ := hw
-  refine float_core .float [] fp ex (nil_ok 10) hfp hwf.2 _ ?_ w1 w2 w3 w4 w5
-  have e : (Lit.fDot fp ex).spell = [] ++ 46 :: (fp ++ exSpell ex) := by simp [Lit.spell]
-  rw [e, readValue_dec _ _ (show NoPrefix ([] ++ 46 :: (fp ++ exSpell ex)) from noPrefix_dot _),
-    readParts_frac [] fp _ (nil_ok 10) hfp (stop_exSpell ex)]
+  exact float_core .float [] fp ex (nil_ok 10) hfp hwf.2 _ hp w1 w2 w3 w4 w5
+
+theorem lit_fDot_out (fp : List Nat) (ex : Option Exponent)
+    (hwf : (Lit.fDot fp ex).wf = true) (hw : ¬ (Lit.fDot fp ex).inWindow) :
+    readValue (Lit.fDot fp ex).kind (Lit.fDot fp ex).spell = .err := by
+  have hp := parts_fDot fp ex hwf
+  simp only [Lit.wf, Bool.and_eq_true] at hwf
+  have hfp := wfDigits_ok 10 fp hwf.1
+  exact float_out .float [] fp ex (nil_ok 10) hfp hwf.2 _ hp hw
+
+/-- `inWindow` of a `0b`/`0o`/`0x` literal (no decimal mantissa): trivially true -/
+theorem window_prefixed :
+    (-100000 : Int) ≤ 0 ∧ (0 : Int) ≤ 100000 ∧ ((0 : Nat) : Int) ≤ 100000 ∧
+      (-100000 : Int) ≤ 0 - ((0 : Nat) : Int) + (Dec.numDigits (digitsVal 10 []) : Int) - 1 ∧
+      0 - ((0 : Nat) : Int) + (Dec.numDigits (digitsVal 10 []) : Int) - 1 ≤ 100000 := by
+  decide
+
+theorem parts_si (k : NumLit.Kind) (ip : List Nat) (fp : Option (List Nat)) (m : Multiplier)
+    (hwf : (Lit.si ip fp m).wf = true) :
+    readValue k (Lit.si ip fp m).spell = decValue k
+      { intDs := ip.filter (· != 95), fracDs := (optSpell fp).filter (· != 95),
+        mul := some (m.letter.rank, m.iec) } := by
+  simp only [Lit.wf, Bool.and_eq_true] at hwf
+  have hip := wfDigits_ok 10 ip hwf.1
+  have hfp := optWf_ok fp hwf.2
+  cases fp with
+  | none =>
+    have e : (Lit.si ip none m).spell = ip ++ m.spell := by simp [Lit.spell]
+    rw [e, readValue_dec _ _ (noPrefix_cat ip _ hip (wf_ne_nil hwf.1) (headSafe_mul m)),
+      readParts_int ip _ hip (stop_mul m) (mul_not_dot m), tailParts_mul]
+    rfl
+  | some f =>
+    have e : (Lit.si ip (some f) m).spell = ip ++ 46 :: (f ++ m.spell) := by simp [Lit.spell]
+    rw [e, readValue_dec _ _ (noPrefix_cat ip _ hip (wf_ne_nil hwf.1) (headSafe_dot _)),
+      readParts_frac ip f _ hip hfp (stop_mul m), tailParts_mul]
+    rfl
+
+theorem parts_siDot (fp : List Nat) (m : Multiplier) (hwf : (Lit.siDot fp m).wf = true) :
+    readValue .int (Lit.siDot fp m).spell = decValue .int
+      { intDs := ([] : List Nat).filter (· != 95), fracDs := fp.filter (· != 95),
+        mul := some (m.letter.rank, m.iec) } := by
+  simp only [Lit.wf] at hwf
+  have hfp := wfDigits_ok 10 fp hwf
+  have e : (Lit.siDot fp m).spell = [] ++ 46 :: (fp ++ m.spell) := by simp [Lit.spell]
+  rw [e, readValue_dec _ _ (show NoPrefix ([] ++ 46 :: (fp ++ m.spell)) from noPrefix_dot _),
+    readParts_frac [] fp _ (nil_ok 10) hfp (stop_mul m), tailParts_mul]
 
 theorem lit_si (ip : List Nat) (fp : Option (List Nat)) (m : Multiplier)
     (hwf : (Lit.si ip fp m).wf = true) (hw : (Lit.si ip fp m).inWindow)
     (hi : (Lit.si ip fp m).siIntegral) (hf : (Lit.si ip fp m).siFits prec) :
     ∃ n, readValue (Lit.si ip fp m).kind (Lit.si ip fp m).spell = .ok n ∧ n.k = (Lit.si ip fp m).kind ∧
       toRat n.d = (Lit.si ip fp m).denote := by
+  have hparts := parts_si .int ip fp m hwf
   simp only [Lit.wf, Bool.and_eq_true] at hwf
   have hip := wfDigits_ok 10 ip hwf.1
   have hfp := optWf_ok fp hwf.2
   obtain ⟨_, _, w3, w4, w5⟩ := hw
-  -- the parts
-  have hparts : readValue .int (Lit.si ip fp m).spell = decValue .int
-      { intDs := ip.filter (· != 95), fracDs := (optSpell fp).filter (· != 95),
-        mul := some (m.letter.rank, m.iec) } := by
-    cases fp with
-    | none =>
-      have e : (Lit.si ip none m).spell = ip ++ m.spell := by simp [Lit.spell]
-      rw [e, readValue_dec _ _ (noPrefix_cat ip _ hip (wf_ne_nil hwf.1) (headSafe_mul m)),
-        readParts_int ip _ hip (stop_mul m) (mul_not_dot m), tailParts_mul]
-      rfl
-    | some f =>
-      have e : (Lit.si ip (some f) m).spell = ip ++ 46 :: (f ++ m.spell) := by simp [Lit.spell]
-      rw [e, readValue_dec _ _ (noPrefix_cat ip _ hip (wf_ne_nil hwf.1) (headSafe_dot _)),
-        readParts_frac ip f _ hip hfp (stop_mul m), tailParts_mul]
-      rfl
   have := decValue_si .int
     { intDs := ip.filter (· != 95), fracDs := (optSpell fp).filter (· != 95),
       mul := some (m.letter.rank, m.iec) } ip (optSpell fp) hip hfp rfl rfl m.letter.rank m.iec rfl rfl w3 w4 w5
@@ -712,28 +886,154 @@ theorem lit_si (ip : List Nat) (fp : Option (List Nat)) (m : Multiplier)
   obtain ⟨n, h1, h2, h3⟩ := this
   exact ⟨n, hparts.trans h1, h2, h3⟩
 
+theorem lit_si_out (ip : List Nat) (fp : Option (List Nat)) (m : Multiplier)
+    (hwf : (Lit.si ip fp m).wf = true) (hw : ¬ (Lit.si ip fp m).inWindow) :
+    readValue (Lit.si ip fp m).kind (Lit.si ip fp m).spell = .err := by
+  have hparts := parts_si .int ip fp m hwf
+  simp only [Lit.wf, Bool.and_eq_true] at hwf
+  have hip := wfDigits_ok 10 ip hwf.1
+  have hfp := optWf_ok fp hwf.2
+  exact hparts.trans (decValue_out .int _ ip (optSpell fp) hip hfp rfl rfl hw)
+
 theorem lit_siDot (fp : List Nat) (m : Multiplier)
     (hwf : (Lit.siDot fp m).wf = true) (hw : (Lit.siDot fp m).inWindow)
     (hi : (Lit.siDot fp m).siIntegral) (hf : (Lit.siDot fp m).siFits prec) :
     ∃ n, readValue (Lit.siDot fp m).kind (Lit.siDot fp m).spell = .ok n ∧ n.k = (Lit.siDot fp m).kind ∧
       toRat n.d = (Lit.siDot fp m).denote := by
+  have hparts := parts_siDot fp m hwf
   simp only [Lit.wf] at hwf
   have hfp := wfDigits_ok 10 fp hwf
-  have hnil : ∀ c ∈ ([] : List Nat), OkByte 10 c := by intro c hc; cases hc
   obtain ⟨_, _, w3, w4, w5⟩ := hw
-  have hparts : readValue .int (Lit.siDot fp m).spell = decValue .int
-      { intDs := ([] : List Nat).filter (· != 95), fracDs := fp.filter (· != 95),
-        mul := some (m.letter.rank, m.iec) } := by
-    have e : (Lit.siDot fp m).spell = [] ++ 46 :: (fp ++ m.spell) := by simp [Lit.spell]
-    rw [e, readValue_dec _ _ (show NoPrefix ([] ++ 46 :: (fp ++ m.spell)) from noPrefix_dot _), readParts_frac [] fp _ hnil hfp (stop_mul m), tailParts_mul]
   have := decValue_si .int
     { intDs := ([] : List Nat).filter (· != 95), fracDs := fp.filter (· != 95),
-      mul := some (m.letter.rank, m.iec) } [] fp hnil hfp rfl rfl m.letter.rank m.iec rfl rfl w3 w4 w5
+      mul := some (m.letter.rank, m.iec) } [] fp (nil_ok 10) hfp rfl rfl m.letter.rank m.iec rfl rfl w3 w4 w5
     (by rw [mulValue_eq]; exact hi) (by rw [mulValue_eq]; exact hf)
   rw [mulValue_eq] at this
   obtain ⟨n, h1, h2, h3⟩ := this
   exact ⟨n, hparts.trans h1, h2, h3⟩
 
+theorem lit_siDot_out (fp : List Nat) (m : Multiplier)
+    (hwf : (Lit.siDot fp m).wf = true) (hw : ¬ (Lit.siDot fp m).inWindow) :
+    readValue (Lit.siDot fp m).kind (Lit.siDot fp m).spell = .err := by
+  have hparts := parts_siDot fp m hwf
+  simp only [Lit.wf] at hwf
+  have hfp := wfDigits_ok 10 fp hwf
+  exact hparts.trans (decValue_out .int _ [] fp (nil_ok 10) hfp rfl rfl hw)
+
+
+/-! ### converse direction: an accepted multiplied spelling is integral -/
+
+/-- converse of `toIntegralExact_of` -/
+theorem toIntegralExact_some (q z : Int) (k n : Nat)
+    (h : toIntegralExact ⟨q, -(n : Int) + (k : Int)⟩ = some z) : q * 10 ^ k = z * 10 ^ n := by
+  unfold toIntegralExact at h
+  by_cases hk : n ≤ k
+  · obtain ⟨j, rfl⟩ : ∃ j, k = j + n := ⟨k - n, by omega⟩
+    have h0 : (0 : Int) ≤ -(n : Int) + ((j + n : Nat) : Int) := by omega
+    simp only [h0, if_true] at h
+    have e : (-(n : Int) + ((j + n : Nat) : Int)).toNat = j := by omega
+    rw [e] at h
+    injection h with h
+    rw [← h, Int.pow_add, Int.mul_assoc]
+  · obtain ⟨j, rfl⟩ : ∃ j, n = j + k := ⟨n - k, by omega⟩
+    have h0 : ¬ (0 : Int) ≤ -((j + k : Nat) : Int) + (k : Int) := by omega
+    simp only [h0, if_false] at h
+    have e : (-(-((j + k : Nat) : Int) + (k : Int))).toNat = j := by omega
+    rw [e] at h
+    split at h
+    · rename_i hd
+      injection h with h
+      have hd' : q % 10 ^ j = 0 := by simpa using hd
+      have hq : q = z * 10 ^ j := by
+        rw [← h]
+        exact (Int.ediv_mul_cancel (Int.dvd_of_emod_eq_zero hd')).symm
+      rw [Int.pow_add, ← Int.mul_assoc, ← hq]
+    · cases h
+
+/-- converse of `si_int` -/
+theorem si_rat (A B n M : Nat) (z : Int)
+    (h : ((A * 10 ^ n + B : Nat) : Int) * (M : Int) = z * 10 ^ n) :
+    ((A : Rat) + (B : Rat) / (10 : Rat) ^ n) * (M : Rat) = (z : Rat) := by
+  have h2 := tenpow_ne n
+  have h' : (((A * 10 ^ n + B : Nat) : Int) * (M : Int) : Int) = ((z * 10 ^ n : Int) : Rat) := by
+    rw [h]
+  simp only [Rat.intCast_mul, Rat.intCast_natCast, Rat.natCast_add, Rat.natCast_mul, Rat.natCast_pow,
+    Rat.natCast_ofNat, Rat.intCast_pow, Rat.intCast_ofNat] at h'
+  grind
+
+/-- an accepted multiplied spelling (product fits the precision) has an integral value -/
+theorem decValue_si_integral (k : NumLit.Kind) (p : Parts) (ip fp : List Nat)
+    (hip : ∀ c ∈ ip, OkByte 10 c) (hfp : ∀ c ∈ fp, OkByte 10 c)
+    (h1 : p.intDs = ip.filter (· != 95)) (h2 : p.fracDs = fp.filter (· != 95))
+    (i : Nat) (bin : Bool) (hm : p.mul = some (i, bin)) (he : p.hasExp = false)
+    (w3 : (nDigits fp : Int) ≤ 100000)
+    (w4 : (-100000 : Int) ≤ 0 - (nDigits fp : Int) + (Dec.numDigits (digitsVal 10 (ip ++ fp)) : Int) - 1)
+    (w5 : 0 - (nDigits fp : Int) + (Dec.numDigits (digitsVal 10 (ip ++ fp)) : Int) - 1 ≤ 100000)
+    (hf : Fits prec ⟨((digitsVal 10 (ip ++ fp) * mulValue i bin : Nat) : Int), 0⟩)
+    (n : Num) (h : decValue k p = .ok n) :
+    ∃ z : Int, mantissa ip fp * ((mulValue i bin : Nat) : Rat) = (z : Rat) := by
+  have hc : horner 10 (p.intDs ++ p.fracDs) = digitsVal 10 (ip ++ fp) := by
+    rw [h1, h2]; exact horner_cat ip fp hip hfp
+  have hl : p.fracDs.length = nDigits fp := by rw [h2]; rfl
+  have hle := litExp_in (digitsVal 10 (ip ++ fp)) p.hasExp
+    (if p.expNeg then -(horner 10 p.expDs : Int) else (horner 10 p.expDs : Int)) (nDigits fp) 0
+    (by simp [he]) (by omega) (by omega) w3 w4 w5
+  have hfit : Fits prec (Dec.mul ⟨(digitsVal 10 (ip ++ fp) : Nat), 0 - (nDigits fp : Int)⟩ ⟨(mulValue i bin : Nat), 0⟩) := by
+    obtain ⟨c, j, hc1, hc2⟩ := hf
+    refine ⟨c, j, hc1, ?_⟩
+    show ((digitsVal 10 (ip ++ fp) : Nat) : Int) * ((mulValue i bin : Nat) : Int) = _
+    rw [← hc2]; simp
+  obtain ⟨q, kk, hr, hq⟩ := round_fits prec _ hfit
+  have hexp : (Dec.mul ⟨(digitsVal 10 (ip ++ fp) : Nat), 0 - (nDigits fp : Int)⟩ ⟨(mulValue i bin : Nat), 0⟩).exp + (kk : Int)
+      = -(nDigits fp : Int) + (kk : Int) := by
+    show 0 - (nDigits fp : Int) + 0 + (kk : Int) = _
+    omega
+  rw [hexp] at hr
+  unfold decValue at h
+  simp only [hc, hl, hle, hm, round34, hr] at h
+  cases hti : toIntegralExact ⟨q, -(nDigits fp : Int) + (kk : Int)⟩ with
+  | none => rw [hti] at h; cases h
+  | some z =>
+    refine ⟨z, ?_⟩
+    have hz := toIntegralExact_some q z kk (nDigits fp) hti
+    rw [hq] at hz
+    have hz' : ((digitsVal 10 (ip ++ fp) : Nat) : Int) * ((mulValue i bin : Nat) : Int) = z * 10 ^ nDigits fp := hz
+    rw [digitsVal_append] at hz'
+    exact si_rat _ _ _ _ z hz'
+
+theorem lit_si_integral (ip : List Nat) (fp : Option (List Nat)) (m : Multiplier)
+    (hwf : (Lit.si ip fp m).wf = true)
+    (hw : (Lit.si ip fp m).inWindow) (hf : (Lit.si ip fp m).siFits prec)
+    (n : Num) (h : readValue .int (Lit.si ip fp m).spell = .ok n) : (Lit.si ip fp m).siIntegral := by
+  rw [parts_si .int ip fp m hwf] at h
+  simp only [Lit.wf, Bool.and_eq_true] at hwf
+  have hip := wfDigits_ok 10 ip hwf.1
+  have hfp := optWf_ok fp hwf.2
+  obtain ⟨_, _, w3, w4, w5⟩ := hw
+  have := decValue_si_integral .int _ ip (optSpell fp) hip hfp rfl rfl m.letter.rank m.iec rfl rfl w3 w4 w5
+    (by rw [mulValue_eq]; exact hf) n h
+  rw [mulValue_eq] at this
+  exact this
+
+theorem lit_siDot_integral (fp : List Nat) (m : Multiplier)
+    (hwf : (Lit.siDot fp m).wf = true)
+    (hw : (Lit.siDot fp m).inWindow) (hf : (Lit.siDot fp m).siFits prec)
+    (n : Num) (h : readValue .int (Lit.siDot fp m).spell = .ok n) : (Lit.siDot fp m).siIntegral := by
+  rw [parts_siDot fp m hwf] at h
+  simp only [Lit.wf] at hwf
+  have hfp := wfDigits_ok 10 fp hwf
+  obtain ⟨_, _, w3, w4, w5⟩ := hw
+  have := decValue_si_integral .int _ [] fp (nil_ok 10) hfp rfl rfl m.letter.rank m.iec rfl rfl w3 w4 w5
+    (by rw [mulValue_eq]; exact hf) n h
+  rw [mulValue_eq] at this
+  exact this
+
+/-- the kind passed to the reader does not matter for a multiplied spelling -/
+theorem readValue_si_kind (k : NumLit.Kind) (ip : List Nat) (fp : Option (List Nat)) (m : Multiplier)
+    (hwf : (Lit.si ip fp m).wf = true) :
+    readValue k (Lit.si ip fp m).spell = readValue .int (Lit.si ip fp m).spell := by
+  rw [parts_si k ip fp m hwf, parts_si .int ip fp m hwf]
+  rfl
 
 theorem floor_eq (q : Rat) (z : Int) (h1 : (z : Rat) ≤ q) (h2 : q < ((z + 1 : Int) : Rat)) : q.floor = z := by
   have a := Rat.le_floor_iff.2 h1
